@@ -183,6 +183,9 @@ class Canon:
                         out = out * base
                     return out
                 return Poly.atom("pow(%s,%s)" % (self.poly(node.left).canon(), e.canon()))
+            return Poly.atom("%s(%s, %s)" % (type(op).__name__.lower(), self.ptext(node.left), self.ptext(node.right)))
+        if isinstance(node, ast.UnaryOp):
+            return Poly.atom("%s(%s)" % (type(node.op).__name__.lower(), self.ptext(node.operand)))
         return Poly.atom(self.text(node))
 
     # -- canonical text of non-arithmetic nodes ----------------------------------------------
